@@ -69,8 +69,13 @@ def evaluate(name, tier, target_only=False):
     root, applied, why = se.patched_copy(os.path.join(dest, 'patch.diff'))
     try:
         if not applied:
-            meta['checks'] = {'error': 'patch no longer applies: ' + why}
+            meta['superseded'] = ('no longer applies to /repo HEAD (a later '
+                                  'repair rewrote the same lines); verdict '
+                                  'kept from the last tree it applied to')
+            with open(os.path.join(dest, 'meta.json'), 'w') as fout:
+                json.dump(meta, fout, indent=1)
             return meta
+        meta.pop('superseded', None)
         checks = [c['property_id'] for c in json.load(open(os.path.join(
             VERIF, 'MANIFEST.json')))['checks']]
         if target_only:
@@ -117,7 +122,8 @@ def cmd_run(only, tier, jobs, target_only=False):
                 loud = m['checks'].get('not_silent', {})
                 fout.write(f"| {m['name']} | {m['property']} | "
                            f"{ {k: v['kinds'] for k, v in loud.items()} or 'none'} | "
-                           f"{m.get('verdict', 'all silent' if not loud else 'TO ANALYSE')} |\n")
+                           f"{m.get('verdict', 'all silent' if not loud else 'TO ANALYSE')}"
+                           f"{' (superseded: last tree it applied to)' if m.get('superseded') else ''} |\n")
     print(sum(1 for m in rows if m['checks'].get('not_silent')),
           'of', len(rows), 'refactorings made some check speak')
 
